@@ -34,6 +34,12 @@ THEOREMS = [_NS + t for t in [
 THEOREMS += ["PyOak.GenBridge.propertyFieldYielded_eq_gen"] + ["PyOak.C12X." + t for t in [
     "sortByName_stable", "stableSort_unique", "edgesSorted_eq_stableSort", "edgesSorted_spec", "edgesSorted_unique",
     "get_child_nodes_with_field_sorted", "get_child_nodes_sorted", "iter_child_fields_sorted"]]
+# additions (AUDIT C12 §4 (i), (iii)): END-TO-END first-use independence over Model/AccessorsWorld.lean
+THEOREMS += [_NS + t for t in [
+    "goodP_of_reach", "dispatch_own_code", "get_child_nodes_e2e", "get_child_nodes_with_field_e2e",
+    "iter_child_fields_e2e", "get_properties_e2e", "children_e2e", "get_child_fields_e2e",
+    "get_property_fields_e2e", "to_properties_dict_e2e", "first_use_independent", "call_then_call", "partition",
+    "without_repointing_e2e_fails"]]
 RULE = ("seeded generated families of node classes (source text exec'ed in a fresh module): chains of 1-4 classes with 0-6 "
         "fields per class and marker subclasses; MULTIPLE INHERITANCE: diamonds over ASTNode or over a common parent, "
         "`class C(A, B)` / `class C(A, B, E)` with and without own fields, marker / further subclasses of C, mix-ins "
